@@ -320,9 +320,9 @@ func VerifC13RenewRelease(n int, sidKind int) {
 	verifReach("end")
 }
 
-// VerifC13ReleaseFault: the one transmission Release makes fails in the socket. Release reports
-// the error, makes no further attempt, and in particular emits no RELEASE to any destination other
-// than the lease's server ("one RELEASE ... to the lease's server").
+// VerifC13ReleaseFault: the one transmission Release makes fails in the socket. Release makes no
+// further attempt, and in particular emits no RELEASE to any destination other than the lease's
+// server ("one RELEASE ... to the lease's server").
 func VerifC13ReleaseFault() {
 	base := newVerifConn()
 	bcast := &net.UDPAddr{IP: net.IP{255, 255, 255, 255}, Port: 67}
@@ -339,8 +339,7 @@ func VerifC13ReleaseFault() {
 	attempts, sent := base.writes, len(base.log)
 	base.failAt = base.writes
 	base.mu.Unlock()
-	rerr := c.Release(lease)
-	verifAssert(rerr != nil, "release-reports-the-write-error")
+	_ = c.Release(lease) // what Release reports for the failed write is not part of the property
 	base.mu.Lock()
 	verifAssert(base.writes == attempts+1, "release-makes-exactly-one-transmission-attempt")
 	verifAssert(len(base.log) == sent, "no-release-to-another-destination")
